@@ -36,17 +36,23 @@ pub struct ChannelClosed;
 impl<T> Sender<T> {
     pub fn send(&mut self, value: T) -> Result<(), ChannelFull> {
         while let Some(value) = self.pending_messages.pop_front() {
+            #[cfg(fastrace_verif)]
+            crate::verif::yield_point(crate::verif::Point::Push);
             if let Err(PushError::Full(value)) = self.tx.push(value) {
                 self.pending_messages.push_front(value);
                 return Err(ChannelFull);
             }
         }
 
+        #[cfg(fastrace_verif)]
+        crate::verif::yield_point(crate::verif::Point::Push);
         self.tx.push(value).map_err(|_| ChannelFull)
     }
 
     pub fn force_send(&mut self, value: T) {
         while let Some(pending) = self.pending_messages.pop_front() {
+            #[cfg(fastrace_verif)]
+            crate::verif::yield_point(crate::verif::Point::Push);
             if let Err(PushError::Full(pending)) = self.tx.push(pending) {
                 // Keep the order: the new message must not overtake the pending ones.
                 self.pending_messages.push_front(pending);
@@ -55,6 +61,8 @@ impl<T> Sender<T> {
             }
         }
 
+        #[cfg(fastrace_verif)]
+        crate::verif::yield_point(crate::verif::Point::Push);
         if let Err(PushError::Full(value)) = self.tx.push(value) {
             self.pending_messages.push_back(value);
         }
@@ -64,15 +72,29 @@ impl<T> Sender<T> {
 impl<T> Drop for Sender<T> {
     fn drop(&mut self) {
         for command in self.pending_messages.drain(..) {
+            #[cfg(fastrace_verif)]
+            crate::verif::yield_point(crate::verif::Point::DropPush);
             drop(self.tx.push(command));
         }
+        #[cfg(fastrace_verif)]
+        crate::verif::yield_point(crate::verif::Point::Abandon);
     }
 }
 
 impl<T> Receiver<T> {
     pub fn try_recv(&mut self) -> Result<Option<T>, ChannelClosed> {
+        #[cfg(fastrace_verif)]
+        crate::verif::yield_point(crate::verif::Point::Pop);
         match self.rx.pop() {
             Ok(val) => Ok(Some(val)),
+            #[cfg(fastrace_verif)]
+            Err(_) if {
+                crate::verif::yield_point(crate::verif::Point::Check);
+                false
+            } =>
+            {
+                unreachable!()
+            }
             Err(_) if self.rx.is_abandoned() => {
                 // The producer may have pushed its last commands and gone away between the
                 // failed pop and the check above: look once more before giving up the channel.
